@@ -1524,6 +1524,68 @@ def gen_uptime_body(repo, consts):
     return "\n".join(out)
 
 
+# ---------------------------------------------------------------- the public wrappers fingerprint_tcp / fingerprint_mtu / fingerprint_http
+def wrapper_body(repo, path, fn):
+    f = find_function(ast.parse(open(os.path.join(repo, path)).read()), fn)
+    return f, [s for s in f.body if not (isinstance(s, ast.Expr) and isinstance(s.value, ast.Constant))]
+
+
+def is_raise_packet_error(st):
+    return (isinstance(st, ast.If) and not st.orelse and len(st.body) == 1 and isinstance(st.body[0], ast.Raise) and isinstance(st.body[0].exc, ast.Call)
+            and dotted(st.body[0].exc.func) == "PacketError")
+
+
+def gen_fp_tcp_wrapper(repo, consts):
+    """fingerprint_tcp: gate, choice of the direction (= of the database section), result.  Glue statements are checked literally."""
+    f, body = wrapper_body(repo, "pyp0f/fingerprint/tcp.py", "fingerprint_tcp")
+    if len(body) != 5 or ast.unparse(body[0]) != "packet = parse_packet(packet)" or not is_raise_packet_error(body[1]) \
+            or ast.unparse(body[1].test) != "not valid_for_tcp_fingerprint(packet)" \
+            or not (isinstance(body[2], ast.Assign) and dotted(body[2].targets[0]) == "direction") \
+            or ast.unparse(body[3]) != "packet_signature = TCPPacketSignature.from_packet(packet, syn_mss)" \
+            or ast.unparse(body[4]) != "return TCPResult(packet, packet_signature, find_tcp_match(packet_signature, direction, options))":
+        fail(f, "fingerprint_tcp shape")
+    env = Env({"packet.tcp.type": ("ty", "Z"), "Direction.CLIENT_TO_SERVER": ("Req", "DIR"), "Direction.SERVER_TO_CLIENT": ("Resp", "DIR")}, consts)
+    d, td = expr(body[2].value, env)
+    if td != "DIR":
+        fail(body[2], "direction is not a Direction")
+    return ("Definition gen_fingerprint_tcp (md : Z) (db : tcp_db) (frag : bool) (ty : Z) (p : pkt_sig) : res (option (mtype * tcp_rec) * Z) :=\n"
+            "  if negb (gen_valid_for_tcp_fingerprint frag ty) then Err PacketError else\n"
+            "  let direction := %s in\n"
+            "  match (match direction with Req => db_req db | Resp => db_resp db end) with   (* database.iter_values(TCPRecord, direction) *)\n"
+            "  | None => Err DatabaseError\n"
+            "  | Some recs => let m := gen_find_tcp_match md recs p in Ok (m, gen_distance m p)\n  end." % d)
+
+
+def gen_fp_mtu_wrapper(repo, consts):
+    f, body = wrapper_body(repo, "pyp0f/fingerprint/mtu.py", "fingerprint_mtu")
+    if len(body) != 4 or ast.unparse(body[0]) != "packet = parse_packet(packet)" or not is_raise_packet_error(body[1]) \
+            or ast.unparse(body[1].test) != "not valid_for_mtu_fingerprint(packet)" \
+            or ast.unparse(body[2]) != "packet_signature = MTUPacketSignature.from_packet(packet)" \
+            or ast.unparse(body[3]) != "return MTUResult(packet, packet_signature, find_mtu_match(packet_signature, options.database))":
+        fail(f, "fingerprint_mtu shape")
+    g = find_function(ast.parse(open(os.path.join(repo, "pyp0f/net/signatures/mtu.py")).read()), "from_packet", cls="MTUPacketSignature")
+    gb = [s for s in g.body if not (isinstance(s, ast.Expr) and isinstance(s.value, ast.Constant))]
+    if len(gb) != 1 or ast.unparse(gb[0]) != "return cls.from_mss(packet.tcp.options.mss, packet.ip.version)":
+        fail(g, "MTUPacketSignature.from_packet shape")
+    return ("Definition gen_fingerprint_mtu (db : option (list mtu_rec)) (frag : bool) (ty ver mss : Z) : res (Z * option mtu_rec) :=\n"
+            "  if negb (gen_valid_for_mtu_fingerprint frag ty mss) then Err PacketError else\n"
+            "  match gen_mtu_from_mss mss ver with\n  | None => Err PacketError\n"
+            "  | Some mtu => match db with None => Err DatabaseError | Some recs => Ok (mtu, gen_find_mtu_match recs mtu) end\n  end.")
+
+
+def gen_fp_http_wrapper(repo, consts):
+    f, body = wrapper_body(repo, "pyp0f/fingerprint/http.py", "fingerprint_http")
+    if [ast.unparse(x) for x in body] != ["direction, version, headers = read_payload(buffer)", "packet_signature = HTTPPacketSignature(version, headers)",
+                                         "return HTTPResult(buffer, packet_signature, find_http_match(packet_signature, direction, options.database))"]:
+        fail(f, "fingerprint_http shape")
+    return ("Definition gen_fingerprint_http (d : db) (data : text) : res (option rec * bool * (direction * Z * list pkt_header)) :=\n"
+            "  do p <- read_payload data;      (* translated separately: translate/http2coq.py, gen_read_payload_eq *)\n"
+            "  let '(dir, ver, hs) := p in\n"
+            "  match (match dir with Request => d_http_req d | Response => d_http_resp d end) with   (* database.iter_values(HTTPRecord, direction) *)\n"
+            "  | None => Err DatabaseError\n"
+            "  | Some recs => let m := gen_find_http_match ver hs recs in Ok (m, gen_dishonest m hs, p)\n  end.")
+
+
 HEADER = """(* GENERATED by translate/py2coq.py from %s (group %s) -- regenerated on every check run; do not edit. *)
 From PV Require Import Model.Prelude Model.Bits Model.Sig Model.Select Model.Mtu Model.Options Model.Text Model.SigParse Model.DbParse Model.HttpRead Model.HttpMatch Gen.GenLib.
 %s"""
@@ -1533,10 +1595,10 @@ From PV Require Import Model.Prelude Model.Bits Model.Sig Model.Select Model.Mtu
 GROUPS = {
     "match": ([], [gen_win_multi, gen_match]),
     "uptime": ([], [gen_round, gen_gates, lambda r, c: gen_valid_for(r, c, "uptime"), gen_uptime_body]),
-    "select": (["match"], [gen_guess, gen_gates, lambda r, c: gen_valid_for(r, c, "tcp"), gen_find_tcp, gen_distance_fn]),
-    "mtu": ([], [gen_gates, lambda r, c: gen_valid_for(r, c, "mtu"), gen_mtu_sig, gen_find_mtu, gen_imp_mtu]),
+    "select": (["match"], [gen_guess, gen_gates, lambda r, c: gen_valid_for(r, c, "tcp"), gen_find_tcp, gen_distance_fn, gen_fp_tcp_wrapper]),
+    "mtu": ([], [gen_gates, lambda r, c: gen_valid_for(r, c, "mtu"), gen_mtu_sig, gen_find_mtu, gen_imp_mtu, gen_fp_mtu_wrapper]),
     "options": ([], [gen_options]),
-    "http": ([], [gen_http]),
+    "http": ([], [gen_http, gen_fp_http_wrapper]),
 }
 
 
